@@ -264,6 +264,7 @@ def build(tier):
         for cfg in ('sizet', 'xyzw', 'ctorinit', 'swzfunc'): us += layout_units(cfg, ['float', 'int'], ['packed_highp'])
         us += layout_units('defal', ['float'], ['defaultp', 'packed_highp'])
         us += layout_units('avx2', ['float', 'double'], ['aligned_highp'])
+        us += layout_units('swzop', ['float', 'uint8_t'], ['packed_highp', 'aligned_highp'], shapes=[(2, 2), (3, 3), (4, 3), (2, 4)])      # operator swizzles put proxy members into the vec unions
     else:
         us += layout_units('default', SCAL, PQ)
         for cfg in ('sse2', 'avx', 'avx2', 'algen'): us += layout_units(cfg, SCAL, AQ + PQ)
